@@ -36,9 +36,9 @@ type vpCaptured struct {
 type vpConfig struct {
 	entries     []git.ConfigEntry // what `git config --list` reports (refgroup definitions)
 	threshold   int               // 0 absent, 1 valid "0.1" (not exactly representable: read with full double precision), 2 invalid
-	names       int // 0 absent, 1 "hash", 2 invalid
-	jsonVersion int // 0 absent, 1 -> 2, 2 -> 3 (invalid)
-	progress    int // 0 absent, 1 true
+	names       int               // 0 absent, 1 "hash", 2 invalid
+	jsonVersion int               // 0 absent, 1 -> 2, 2 -> 3 (invalid)
+	progress    int               // 0 absent, 1 true
 	consulted   map[string]int
 }
 
@@ -353,7 +353,6 @@ func VPH_mainSpellings() {
 	vp_Reach("end")
 }
 
-
 // VPH_mainFaults (C10): whatever fails before the report is written - the
 // repository cannot be opened, gitconfig cannot be read, an option value or a
 // ROOT is invalid, the reference listing or the scan fails - the run returns
@@ -480,7 +479,6 @@ func VPH_mainSelection() {
 	}
 	vp_Reach("end")
 }
-
 
 // vpResolve is the scripted `git rev-parse`: several spellings may name one object.
 func vpResolve(name string) git.OID {
